@@ -218,8 +218,35 @@ def bi_tuple(eng, args, kwargs, fr):
     if isinstance(v, SeqIter) and v.kind in ("sortedset",):
         return v.data
     if isinstance(v, SeqIter) and v.kind == "genexp":
+        r = relabel_genexp(eng, v)
+        if r is not None:
+            return r
         return materialize_genexp(eng, v, "tuple")
+    if isinstance(v, SeqIter) and v.kind == "sortedkey":
+        return v.data
     raise Unsupported("tuple(%s)" % type(v).__name__)
+
+
+def relabel_genexp(eng, gen):
+    """(mapping[i] for i in key) over a symbolic key and a label->int dict: the relabelled key; KeyError when a
+    label of the key is not mapped"""
+    n, fr = gen.data
+    if len(n.generators) != 1 or n.generators[0].ifs or not isinstance(n.generators[0].target, ast.Name):
+        return None
+    g = n.generators[0]
+    src = eng.eval(g.iter, fr)
+    if not (isinstance(src, SV) and src.t == "key"):
+        return None
+    if not (isinstance(n.elt, ast.Subscript) and isinstance(n.elt.slice, ast.Name) and n.elt.slice.id == g.target.id):
+        return None
+    m = eng.eval(n.elt.value, fr)
+    if not isinstance(m, DictVal) or m.ver.ksort != T.Label:
+        return None
+    ver = eng.store_of(m)
+    r, ok = eng.facts.relabel(src.e, ver.dom, ver.val)
+    if not eng.branch(ok):
+        raise PyExc("KeyError", "label not in mapping")
+    return SV(r, "key")
 
 
 def bi_list(eng, args, kwargs, fr):
@@ -265,6 +292,9 @@ def bi_sorted(eng, args, kwargs, fr):
         k = v.data
         return SeqIter("sortedset", SV(eng.facts.sq(False, k.e), "key"))
     if isinstance(v, SeqIter) and v.kind == "genexp":
+        r = relabel_genexp(eng, v) if keyf is None else None
+        if r is not None:
+            return SeqIter("sortedkey", SV(eng.facts.sorted_key(r.e), "key"))     # sorting integers: a permutation
         return sorted_genexp(eng, v, keyf)
     raise Unsupported("sorted(%s)" % type(v).__name__)
 
